@@ -14,6 +14,8 @@ program = {
   "fw": {"content": latin-1 str, "pos": int, "block": int}   for the fw_* kinds
   "close": "none" | "ok" | "raise"           close() on the returned iterable
   "exc": "Exception" | "OSError" | "BaseException"   class used by raise steps
+  "first": {"status", "headers", "cl"}       optional: a first start_response call that is then replaced
+                                             (second call with exc_info) before any output
 }
 Bytes are stored as latin-1 str.
 """
@@ -153,6 +155,21 @@ class Run:
         if p.get("cl") is not None:
             headers.append(("Content-Length", str(p["cl"])))
         self.log.add("start_response", self.rid)
+        first = p.get("first")
+        if first:
+            # the application starts one response, hits an error of its own before any output
+            # and replaces the response (PEP 3333: second call with exc_info)
+            h1 = [(k, v) for k, v in first.get("headers", [])]
+            if first.get("cl") is not None:
+                h1.append(("Content-Length", str(first["cl"])))
+            self.start_response(first.get("status", "200 OK"), h1)
+            try:
+                raise AppError("replaced-before-output")
+            except AppError:
+                import sys
+
+                self.write = self.start_response(p.get("status", "200 OK"), headers, sys.exc_info())
+            return
         self.write = self.start_response(p.get("status", "200 OK"), headers)
 
     def do_step(self, op, arg, lazy):
